@@ -307,8 +307,11 @@ def writer_archives(mk_exe):
         res.append(("w:%s%s%s%s" % (f, "+" + flt if flt else "", "/" + opt if opt else "", "#big" if ents is BIG_ENTRIES else "#sparse" if ents is SPARSE_ENTRIES else "#noise" if ents is BIGR_ENTRIES else "#long" if ents is LONG_ENTRIES else ""), v[-1]))
     return res
 
-def read_case(arc, source=(1,), rplan=(), has_skip=0, has_seek=0, faults=(), consume=(0, 4096, 0), noraw=0):
-    return vfmt([arc, list(source), list(rplan), has_skip, has_seek, [list(f) for f in faults], list(consume), noraw])
+def read_case(arc, source=(1,), rplan=(), has_skip=0, has_seek=0, faults=(), consume=(0, 4096, 0), noraw=0, options=b""):
+    c = [arc, list(source), list(rplan), has_skip, has_seek, [list(f) for f in faults], list(consume), noraw]
+    if options:
+        c.append(options)
+    return vfmt(c)
 
 def run_readall(exe, cases, timeout=900):
     path = vlib.write_cases(cases, "readall.cases")
